@@ -695,6 +695,11 @@ outerLoop:
 		}
 	}
 
+	// The max-content width of a column is at least its min-content width
+	for i, minContent := range minContentWidths {
+		maxContentWidths[i] = pr.Max(maxContentWidths[i], minContent)
+	}
+
 	// Calculate the max- and min-content widths of table and columns
 	var (
 		smallpercentageContributions               []pr.Float
